@@ -152,13 +152,15 @@ CLAIMED = {
          "advances at several locations through HarfBuzz (testing).",
          "Rocq proof of closure/subset/remap preservation over a model tied by differential correspondence + HarfBuzz subset sweeps"),
  "C08": ("The instancing arithmetic (normalizeValue, renormalizeValue with user-space distances, supportScalar, _solve/rebaseTent, "
-         "piecewiseLinearMap) is C09's Gallina model, tied to the code by exact differential runs. Theorem: for every restricted range with "
+         "piecewiseLinearMap) is C09's Gallina model, tied to the code by exact differential runs. Theorems: for every restricted range with "
          "moved default on an axis with unequal user-space distances, the new normalised coordinate of any retained point equals what "
-         "normalising its user-space position against the new (minimum, default, maximum) gives -- user coordinates keep their meaning. "
-         "Table-level instancing (gvar, HVAR, MVAR, GPOS/GDEF, avar, fvar, CFF2) is checked on the implementation: generated variable fonts "
-         "(asymmetric axes, intermediate masters, avar, HVAR, variable kerning) and corpus fonts under random pins, ranges and moved "
-         "defaults, compared through HarfBuzz at the same user-space locations within the rounding budget (testing).",
-         "Rocq proof of user-space meaning of renormalisation over the C09 model tied by differential correspondence + HarfBuzz instancing sweeps"),
+         "normalising its user-space position against the new (minimum, default, maximum) gives -- user coordinates keep their meaning; "
+         "pinning an axis (min = default = max) makes rebaseTent return at most the always-on delta set scaled by the tent's value at the "
+         "pin, for every tent shape and every case of _solve. Table-level instancing (gvar, HVAR, MVAR, GPOS/GDEF, avar, fvar, CFF2, GSUB "
+         "FeatureVariations) is checked on the implementation: generated variable fonts (asymmetric axes, intermediate masters, avar, HVAR, "
+         "variable kerning, conditional substitutions) and corpus fonts under random pins, ranges and moved defaults, compared through "
+         "HarfBuzz at the same user-space locations within the rounding budget (testing). Known finding F17.",
+         "Rocq proof of user-space meaning of renormalisation and of pinning over the C09 model tied by differential correspondence + HarfBuzz instancing sweeps"),
  "C10": ("Gallina model of VariationModel.getDeltas WITH rounding (each delta computed from the already rounded earlier ones) and of "
          "evaluation at a master location, on top of C09's model; tied to the code by exact differential runs over random master sets (the "
          "implementation's own supports and scalars at every master are compared with the model's weight rows). Theorem: for any number of "
@@ -174,7 +176,8 @@ CLAIMED = {
          "back, in the same context, to a record with the same meaning and printing is a fixed point; a compiled chaining rule matches at "
          "exactly the positions where the rule as written matches, for glyph, class and coverage elements. The rest of the language is "
          "checked on the implementation: every corpus .fea and generated programs printed, re-parsed, re-printed and compiled both ways, and "
-         "generated GSUB/GPOS programs shaped by HarfBuzz against a reference interpreter of the rule text (testing).",
+         "generated GSUB/GPOS programs (two families: nested contextual calls and positioning; GDEF marks with lookup flags, inline rules and "
+         "reverse chaining) shaped by HarfBuzz against reference interpreters of the rule text (testing).",
          "Rocq proof of value-record round trip and chaining-rule compilation over a model tied by differential correspondence + asFea/HarfBuzz sweeps"),
 }
 
